@@ -445,3 +445,20 @@ def real_params(fi) -> List[str]:
     if getattr(fi, "cls", None) is not None and ps and ps[0] in ("self", "cls") and not is_static:
         ps = ps[1:]
     return ps
+
+
+def loops_as_comps(fn_node: ast.AST, target: str) -> List[ast.ListComp]:
+    """`for T in IT: [if C:] <target>.append(E)` loops of a function, rewritten as the comprehension `[E for T in IT if C]`
+    (the loader does this for local lists; attributes such as `self.names` are left to the rules)"""
+    out: List[ast.ListComp] = []
+    for loop in ast.walk(fn_node):
+        if not (isinstance(loop, ast.For) and len(loop.body) == 1 and not loop.orelse):
+            continue
+        st, conds = loop.body[0], []
+        while isinstance(st, ast.If) and len(st.body) == 1 and not st.orelse:
+            conds.append(st.test)
+            st = st.body[0]
+        if isinstance(st, ast.Expr) and isinstance(st.value, ast.Call) and isinstance(st.value.func, ast.Attribute) and st.value.func.attr == "append" \
+                and norm(st.value.func.value) == target and len(st.value.args) == 1 and not st.value.keywords:
+            out.append(ast.ListComp(elt=st.value.args[0], generators=[ast.comprehension(target=loop.target, iter=loop.iter, ifs=conds, is_async=0)]))
+    return out
